@@ -602,14 +602,22 @@ fn is_still_same_file(file: &HashedFileInfo) -> bool {
 }
 
 /// Returns false if the group contains several paths that were the same file when they
-/// were scanned, and one of them leads to another file now.
+/// were scanned, and one of them leads to another file now, or the file has got another length,
+/// or cannot be opened. Nobody reads such a group, but it must not be reported as it is then.
 fn is_still_one_file(group: &FileGroup<FileInfo>) -> bool {
     group.files.len() <= 1
         || group.unique_count() > 1
-        || group.files.iter().all(|f| match FileId::new(&f.path) {
-            Ok(id) => id == f.id,
-            Err(_) => true,
-        })
+        || group
+            .files
+            .iter()
+            .all(|f| match FileMetadata::new(&f.path) {
+                Ok(metadata) => {
+                    metadata.file_id() == f.id
+                        && metadata.len() == f.len
+                        && File::open(f.path.to_path_buf()).is_ok()
+                }
+                Err(_) => false,
+            })
 }
 
 fn accept_group(_: &FileGroup<FileInfo>) -> bool {
